@@ -6,7 +6,29 @@ import sys
 import xd
 
 with xd.quiet():
-    from xdis.op_imports import op_imports
+    from xdis.op_imports import get_opcode_module, op_imports
+    from xdis.disasm import get_opcode
+
+
+def lookups(vt, pypy):
+    """every public way of asking for the table of (version, variant): the answer must be this table's module"""
+    def ask(f):
+        try:
+            with xd.quiet():
+                return f().__name__
+        except Exception as e:
+            return "raised:" + type(e).__name__
+    variant = "pypy" if pypy else None
+    res = [["get_opcode_module(tuple2)", ask(lambda: get_opcode_module(vt, variant))],
+           ["get_opcode_module(tuple3)", ask(lambda: get_opcode_module(vt + (0,), variant))],
+           ["get_opcode_module(version_info)", ask(lambda: get_opcode_module(vt + (0, "final", 0), variant))],
+           ["get_opcode_module(unknown micro)", ask(lambda: get_opcode_module(vt + (99,), variant))],
+           ["get_opcode_module(version_info, unknown micro)", ask(lambda: get_opcode_module(vt + (99, "final", 0), variant))],
+           ["get_opcode(tuple2)", ask(lambda: get_opcode(vt, pypy))],
+           ["get_opcode(tuple3)", ask(lambda: get_opcode(vt + (0,), pypy))]]
+    if vt[1] < 10:
+        res.append(["get_opcode_module(float)", ask(lambda: get_opcode_module(float("%d.%d" % vt), variant))])
+    return res
 
 
 def vec(xs):
@@ -33,6 +55,7 @@ for k, m in sorted(op_imports.items(), key=lambda kv: str(kv[0])):
         "pairs": sorted([n, c] for n, c in m.opmap.items() if c < 256),
         "jrel": vec(m.hasjrel), "jabs": vec(m.hasjabs), "const": vec(m.hasconst), "name": vec(m.hasname),
         "local": vec(m.haslocal), "free": vec(m.hasfree), "compare": vec(m.hascompare),
+        "lookups": lookups(vt, m.is_pypy),
         "hasarg": vec(getattr(m, "hasarg", [])), "hasargset": 1 if getattr(m, "hasarg", None) else 0,
         "frozen": {"jrel": vec(m.JREL_OPS), "jabs": vec(m.JABS_OPS), "const": vec(m.CONST_OPS), "name": vec(m.NAME_OPS),
                    "local": vec(m.LOCAL_OPS), "free": vec(m.FREE_OPS), "compare": vec(m.COMPARE_OPS), "jump": vec(m.JUMP_OPS)},
